@@ -60,6 +60,23 @@ UNITS = {
                        "s_from_bytes_wide_bounds": {'functions': ['curve25519-dalek/src/backend/serial/u32/{field,scalar}.rs :: s_from_bytes_wide_bounds'], 'thorough_only': True},
                        "s_as_bytes_total": {'functions': ['curve25519-dalek/src/backend/serial/u32/{field,scalar}.rs :: s_as_bytes_total']},
                     }),
+    "K-TOT": dict(engine="kani", crate="kani/tot", props=["C15", "C02", "C07"], jobs=10, harness_timeout_s=900,
+                  desc="public decoders on the real crates: total for every slice length <= 80 and every content; integer->Scalar conversions exact",
+                  trusted=["Kani/CBMC/CaDiCaL", "--cfg miri build of zeroize/cpufeatures"],
+                  harnesses={
+                      "compressed_edwards_from_slice": dict(props=["C15"], functions=["curve25519-dalek/src/edwards.rs :: CompressedEdwardsY::from_slice"]),
+                      "compressed_ristretto_from_slice": dict(props=["C15"], functions=["curve25519-dalek/src/ristretto.rs :: CompressedRistretto::from_slice"]),
+                      "signature_from_slice": dict(props=["C15"], functions=["ed25519 Signature::from_slice / to_bytes"]),
+                      "expanded_secret_key_from_slice_wrong_len": dict(props=["C15"], functions=["ed25519-dalek/src/hazmat.rs :: ExpandedSecretKey::from_slice (len != 64)"]),
+                      "scalar_from_canonical_bytes_total": dict(props=["C15", "C02"], functions=["curve25519-dalek/src/scalar.rs :: Scalar::from_canonical_bytes (total; Some => bytes returned unchanged, top byte <= 0x10)"]),
+                      "scalar_from_bytes_mod_order_total": dict(props=["C15", "C02"], functions=["curve25519-dalek/src/scalar.rs :: Scalar::from_bytes_mod_order (total)"]),
+                      "clamp_integer_rfc7748": dict(props=["C07"], functions=["curve25519-dalek/src/scalar.rs :: clamp_integer"]),
+                      "scalar_from_u8": dict(props=["C02"], functions=["scalar.rs :: From<u8> for Scalar"]),
+                      "scalar_from_u16": dict(props=["C02"], functions=["scalar.rs :: From<u16> for Scalar"]),
+                      "scalar_from_u32": dict(props=["C02"], functions=["scalar.rs :: From<u32> for Scalar"]),
+                      "scalar_from_u64": dict(props=["C02"], functions=["scalar.rs :: From<u64> for Scalar"]),
+                      "scalar_from_u128": dict(props=["C02"], functions=["scalar.rs :: From<u128> for Scalar"]),
+                  }),
     "K-ZERO": dict(engine="kani", crate="kani/zero", props=["C14"],
                    desc="drop glue / Zeroize of the secret-holding types of x25519-dalek and ed25519-dalek, on the real crates, complete in the secret value",
                    trusted=["Kani/CBMC/CaDiCaL", "--cfg miri build of zeroize/cpufeatures (asm-free fallback; optimisation barrier not modelled)",
